@@ -95,6 +95,7 @@ type env struct {
 	jsLog            bool
 
 	probeFn   goja.Callable
+	mkEntry   goja.Callable
 	thenStore goja.Callable
 	reset     goja.Callable
 	dump      goja.Callable
@@ -152,10 +153,72 @@ function __probe(){
 }
 `
 
-func newEnv() *env {
-	e := &env{Env: shapes.New(), ents: map[string]*entryObjs{}}
+// setupProgs: the setup code of every shape (shared catalogue, extras, stateful), compiled once per process.
+var setupProgs []*goja.Program
+
+func init() {
+	setupProgs = append(setupProgs, goja.MustCompile("helpers.js", helperSrc, false))
+	for _, s := range allShapes {
+		setupProgs = append(setupProgs, goja.MustCompile("shape_"+s.Name+".js", s.Src+"\nvar main_"+s.Name+" = main;", false))
+	}
+}
+
+// installNatives defines the host functions of verif/lib/shapes (same semantics as shapes.New, which compiles the whole
+// catalogue on every call and is too slow for one runtime per failing case) plus the C03 additions.
+func (e *env) installNatives() {
 	r := e.R
-	e.foreign = &foreignPanic{"c03-foreign-panic"}
+	nat := func(name string) {
+		if e.OnNative != nil {
+			e.OnNative(name)
+		}
+	}
+	r.Set("callback", func(call goja.FunctionCall) goja.Value {
+		nat("callback")
+		fn, ok := goja.AssertFunction(call.Argument(0))
+		if !ok {
+			panic(r.NewTypeError("not a function"))
+		}
+		v, err := fn(goja.Undefined())
+		if err != nil {
+			panic(err)
+		}
+		return v
+	})
+	r.Set("runNested", func(call goja.FunctionCall) goja.Value {
+		nat("runNested")
+		v, err := r.RunString(call.Argument(0).String())
+		if err != nil {
+			panic(err)
+		}
+		return v
+	})
+	r.Set("hostGet", func(call goja.FunctionCall) goja.Value {
+		nat("hostGet")
+		return call.Argument(0).ToObject(r).Get(call.Argument(1).String())
+	})
+	r.Set("hostForOf", func(call goja.FunctionCall) goja.Value {
+		nat("hostForOf")
+		n := 0
+		r.ForOf(call.Argument(0), func(v goja.Value) bool { n++; return true })
+		return r.ToValue(n)
+	})
+	r.Set("hostThrow", func(call goja.FunctionCall) goja.Value {
+		nat("hostThrow")
+		panic(r.ToValue(call.Argument(0).String()))
+	})
+	r.Set("hostStackDepth", func(call goja.FunctionCall) goja.Value {
+		return r.ToValue(len(r.CaptureCallStack(0, nil)))
+	})
+	// runProg(name): re-entrant RunProgram of a pre-compiled program from inside a native function
+	r.Set("runProg", func(call goja.FunctionCall) goja.Value {
+		nat("runProg")
+		v, err := r.RunProgram(progs["run/"+call.Argument(0).String()])
+		if err != nil {
+			panic(err)
+		}
+		return v
+	})
+	vTrue := r.ToValue(true)
 	r.Set("__nlog", func(call goja.FunctionCall) goja.Value {
 		tag := call.Argument(0).String()
 		e.Log = append(e.Log, tag)
@@ -168,7 +231,7 @@ func newEnv() *env {
 				e.fired++
 				switch f.Kind {
 				case "throw":
-					return r.ToValue(true)
+					return vTrue
 				case "pval":
 					panic(e.payload)
 				case "pexc":
@@ -182,6 +245,13 @@ func newEnv() *env {
 		}
 		return goja.Undefined()
 	})
+	r.Set("log", r.Get("__nlog"))
+}
+
+func newEnv() *env {
+	e := &env{Env: &shapes.Env{R: goja.New()}, ents: map[string]*entryObjs{}}
+	r := e.R
+	e.foreign = &foreignPanic{"c03-foreign-panic"}
 	e.OnNative = func(string) {
 		e.natN++
 		for _, f := range e.faults {
@@ -194,29 +264,11 @@ func newEnv() *env {
 			}
 		}
 	}
-	r.Set("hostStackDepth", func(call goja.FunctionCall) goja.Value {
-		return r.ToValue(len(r.CaptureCallStack(0, nil)))
-	})
-	// runProg(name): re-entrant RunProgram of a pre-compiled program from inside a native function
-	r.Set("runProg", func(call goja.FunctionCall) goja.Value {
-		e.OnNative("runProg")
-		v, err := r.RunProgram(progs["run/"+call.Argument(0).String()])
-		if err != nil {
-			panic(err)
+	e.installNatives()
+	for _, p := range setupProgs {
+		if _, err := r.RunProgram(p); err != nil {
+			panic(fmt.Sprintf("setup: %v", err))
 		}
-		return v
-	})
-	must := func(_ goja.Value, err error) {
-		if err != nil {
-			panic(err)
-		}
-	}
-	must(r.RunString(helperSrc))
-	for _, s := range append(append([]shapes.Shape{}, extra...), stateful...) {
-		if _, err := r.RunString(s.Src); err != nil {
-			panic(fmt.Sprintf("shape %s setup: %v", s.Name, err))
-		}
-		must(r.RunString("var main_" + s.Name + " = main;"))
 	}
 	e.payload = r.Get("__fp").(*goja.Object)
 	e.payloadEx = r.Try(func() { panic(e.payload) })
@@ -226,33 +278,40 @@ func newEnv() *env {
 	e.thenStore, _ = goja.AssertFunction(r.Get("__thenStore"))
 	e.reset, _ = goja.AssertFunction(r.Get("__reset"))
 	e.dump, _ = goja.AssertFunction(r.Get("__dump"))
-	mk, _ := goja.AssertFunction(r.Get("__mkEntry"))
-	for _, s := range allShapes {
-		m := r.Get("main_" + s.Name)
-		o := &entryObjs{main: m}
-		o.call, _ = goja.AssertFunction(m)
-		hv, err := mk(goja.Undefined(), m)
-		if err != nil {
-			panic(err)
-		}
-		h := hv.(*goja.Object)
-		o.ctorVal = h.Get("K")
-		o.ctor, _ = goja.AssertConstructor(o.ctorVal)
-		o.holder = h.Get("H").(*goja.Object)
-		o.coerce = h.Get("V").(*goja.Object)
-		o.iter = h.Get("IT")
-		o.thenFn = h.Get("TH")
-		if err := r.ExportTo(m, &o.expE); err != nil {
-			panic(err)
-		}
-		if err := r.ExportTo(m, &o.expP); err != nil {
-			panic(err)
-		}
-		e.ents[s.Name] = o
-	}
+	e.mkEntry, _ = goja.AssertFunction(r.Get("__mkEntry"))
 	e.setLog(true)
 	e.Log = e.Log[:0]
 	return e
+}
+
+// ent returns the per-shape objects the entry kinds need (created on first use).
+func (e *env) ent(shape string) *entryObjs {
+	if o := e.ents[shape]; o != nil {
+		return o
+	}
+	r := e.R
+	m := r.Get("main_" + shape)
+	o := &entryObjs{main: m}
+	o.call, _ = goja.AssertFunction(m)
+	hv, err := e.mkEntry(goja.Undefined(), m)
+	if err != nil {
+		panic(err)
+	}
+	h := hv.(*goja.Object)
+	o.ctorVal = h.Get("K")
+	o.ctor, _ = goja.AssertConstructor(o.ctorVal)
+	o.holder = h.Get("H").(*goja.Object)
+	o.coerce = h.Get("V").(*goja.Object)
+	o.iter = h.Get("IT")
+	o.thenFn = h.Get("TH")
+	if err := r.ExportTo(m, &o.expE); err != nil {
+		panic(err)
+	}
+	if err := r.ExportTo(m, &o.expP); err != nil {
+		panic(err)
+	}
+	e.ents[shape] = o
+	return o
 }
 
 func (e *env) setLog(js bool) {
@@ -286,7 +345,7 @@ var entries = []string{
 // the job queue is only drained by the next RunProgram / Callable (the harness runs an empty "tick" program).
 func tryFamily(entry string) bool {
 	switch entry {
-	case "try", "get", "tonum", "forof":
+	case "new", "try", "get", "tonum", "forof":
 		return true
 	}
 	return false
@@ -302,8 +361,11 @@ type outcome struct {
 	// FiredAt is the length of the log when the (first) fault fired (the entry at which it fired included)
 	FiredAt int
 	Idle    goja.VerifIdleState
-	// TickErr: error of the job-draining tick of the Try family
-	TickErr string
+	// NatN: number of host-native entries (callback, runNested, ...) during the call
+	NatN int
+	// AfterAbort: log entries produced by the job-draining tick of the Try family after the call proper ended with an
+	// uncatchable error (code of the aborted call that still ran)
+	AfterAbort []string
 }
 
 func (o *outcome) String() string {
@@ -371,7 +433,7 @@ func idleOf(r *goja.Runtime) goja.VerifIdleState {
 // exec performs one API call (entry kind applied to a shape) under the given faults.
 func (e *env) exec(entry, shape string, faults ...Fault) *outcome {
 	r := e.R
-	o := e.ents[shape]
+	o := e.ent(shape)
 	e.Log = e.Log[:0]
 	e.faults = faults
 	e.logN, e.natN, e.fired, e.firedAt = 0, 0, 0, 0
@@ -460,6 +522,7 @@ func (e *env) exec(entry, shape string, faults ...Fault) *outcome {
 			panic("bad entry " + entry)
 		}
 	}()
+	nAbort := len(e.Log)
 	if tryFamily(entry) {
 		// an uncatchable error passes through Runtime.Try as a panic with that error
 		if perr, ok := pan.(error); ok && pan != interface{}(e.foreign) {
@@ -482,16 +545,20 @@ func (e *env) exec(entry, shape string, faults ...Fault) *outcome {
 		r.SetMaxCallStackSize(math.MaxInt32)
 	}
 	e.faults = nil
-	res := &outcome{Log: append([]string{}, e.Log...), Fired: e.fired, FiredAt: e.firedAt, Idle: idleOf(r)}
-	if err == nil && pan == nil {
+	res := &outcome{Log: append([]string{}, e.Log...), Fired: e.fired, FiredAt: e.firedAt, NatN: e.natN, Idle: idleOf(r)}
+	if err == nil && pan == nil && tickErr == nil {
 		res.Val = valStr(v)
 		if entry == "tonum" && v != nil {
 			res.Val = "num"
 		}
 	}
 	res.Err = e.classify(err, pan)
-	if tickErr != nil {
-		res.TickErr = e.classify(tickErr, nil)
+	if res.Err == "" && tickErr != nil {
+		// call + tick are one host-level operation: its error is the first error
+		res.Err = e.classify(tickErr, nil)
+	} else if (res.Err == "overflow" || res.Err == "interrupted") && len(e.Log) > nAbort {
+		res.AfterAbort = append([]string{}, e.Log[nAbort:]...)
+		res.Log = res.Log[:nAbort]
 	}
 	return res
 }
